@@ -2,6 +2,7 @@ package templater
 
 import (
 	"fmt"
+	"math"
 	"math/rand"
 	"strconv"
 	"strings"
@@ -98,8 +99,16 @@ func randInt(f, t int64) (string, error) {
 	}
 	if t == f {
 		t = f + defaultMaxRandValue
+		if t < f {
+			t = math.MaxInt64
+		}
 	}
-	n := rand.Int63n(t - f)
+	// The bounds may come from variables, i.e. from a response: their difference may not fit into int64.
+	span := t - f
+	if span <= 0 {
+		return "", fmt.Errorf("randInt range from %d to %d is empty or too wide", f, t)
+	}
+	n := rand.Int63n(span)
 	n += f
 	return strconv.FormatInt(n, 10), nil
 }
